@@ -31,6 +31,7 @@ type Program struct {
 	Stale     []string
 	GhostFields map[string]string
 	ArrayInit map[string]map[int64]*ssa.Const // global array name -> index -> constant initial element
+	Lock      map[string]lockEntry            // recorded parameter/local names of the functions under contract (rename robustness)
 }
 
 func fkey(pkg, rel string) string { return pkg + "\x00" + rel }
